@@ -462,7 +462,7 @@ def run(ctx):
                 tmax, tcount = tmin + 6, 7
             else:
                 tmin = float(tmin)
-                tmax, tcount = tmin + ctx.rng.choice([2.0, 4.0]), ctx.rng.choice([5, 9])
+                tmax, tcount = tmin + ctx.rng.choice([2.0, 4.0]), ctx.rng.choice([5, 9, 5, 9, 2, 1])
             rep = dict(entry=name, graph=dict(kind=gkind, n=G.order(), edges=[[idx[u], idx[v]] for u, v in G.edges()]),
                        ic={k_: ([idx[u] for u in v] if isinstance(v, list) else v) for k_, v in desc.items()}, tau=tau, gamma=gamma, p=p,
                        tmin=tmin, tmax=tmax, tcount=tcount, full=full,
